@@ -656,6 +656,9 @@ Definition oracle (name suffix : string) (args : list val) (out : val) : N :=
         match args with [VB p; VB e] => oracle_c13 s p e out | _ => fail end
       else if tag_is name "c17" then
         match args with [VB p] => oracle_c17 s typed p out | _ => fail end
+      else if tag_is name "cons" then
+        (* the list of inconsistencies the harness found must be empty *)
+        match vargs "cons" out with Some [VL []; _] => pass | _ => fail end
       else if tag_is name "c02" then
         match s, args with OW, [VB p] => oracle_c02 p out | _, _ => fail end
       else if tag_is name "c16" then
